@@ -755,10 +755,11 @@ def check_rules(rep: Report, stdout: str):
         d = r["d"]
         rep.evaluations += 1
         got = kit.try_class_def(d)
-        desc = ",".join(f"{k}={d[k]}" for k in ("kind", "nbases", "inherits", "defines", "defaults",
+        desc = ",".join(f"{k}={d[k]}" for k in ("kind", "nbases", "depth", "defines", "defaults",
                                                 "assoc", "taken"))
-        sig_in = f"{d['kind']}:" + "+".join(k for k in ("inherits", "defines", "assoc", "taken")
-                                            if d[k]) + (":2bases" if d["nbases"] > 1 else "") + (
+        flags = ([f"inherits@{d['depth']}"] if d["depth"] else []) + [
+            k for k in ("defines", "assoc", "taken") if d[k]]
+        sig_in = f"{d['kind']}:" + "+".join(flags) + (":2bases" if d["nbases"] > 1 else "") + (
             "" if d["defaults"] else ":nodefault")
         rep.distinct.add(("classrule", desc))
         if r["broken"]:
@@ -771,7 +772,7 @@ def check_rules(rep: Report, stdout: str):
                               f"class definition [{desc}] raised {got['exc'][0]}; documented: "
                               f"{r['broken']}", {"kind": "classrule", "d": d})
         else:
-            want_rc = "R" if d["assoc"] else "R0" if d["inherits"] else None
+            want_rc = "R" if d["assoc"] else "R0" if d["depth"] else None
             if got["exc"]:
                 rep.violation(f"namespace-class:rejects:{sig_in}",
                               f"class definition [{desc}] raised {got['exc'][0]} although it follows "
@@ -781,6 +782,12 @@ def check_rules(rep: Report, stdout: str):
                               f"class definition [{desc}]: associated with {got['render_cls']} "
                               f"(instantiable={got.get('instantiable')}); required {want_rc} "
                               f"(associated={r['associated']})", {"kind": "classrule", "d": d})
+        if got["after"] != r["after"]:
+            rep.violation(f"namespace-class:owner-changed:{sig_in}",
+                          f"class creation [{desc}] ({'rejected' if got['exc'] else 'accepted'}): afterwards "
+                          f"R / R0 own {got['after']}; required {r['after']} (a rejected creation, e.g. a "
+                          "re-association, leaves the render classes' Args / _Data_ untouched)",
+                          {"kind": "classrule", "d": d})
     for r in irules:
         rep.evaluations += 1
         got = kit.try_instance_rule(r)
